@@ -821,7 +821,8 @@ class match_public(Contract):
         calls = cx.run.ghost.get('match_calls', [])
         digest = And(Not(name.empty), name.last_type == Component.TYPE_IMPLICIT_SHA256)
         ok = len(calls) == 1 and isinstance(calls[0][1], dict) and calls[0][1] == {}
-        out = {'one_search_from_empty_bindings': ok}
+        out = {'one_search_from_empty_bindings': ok,
+               'enumeration_ends_only_after_the_last_match': cx.it.top_locals.get('__loop_ghost__') is not None}
         if ok:
             used = calls[0][0]
             out['name_matched_without_trailing_digest'] = And(Implies(digest, used.stripped_of is name), Implies(Not(digest), used is name))
